@@ -825,6 +825,71 @@ var ruleElseMarker = &Rule{
 			}
 			compares, reads := false, false
 			var site token.Pos
+			var unbounded []string
+			// the index of a compared element is a loop counter whose bound depends on the marker (a phi merging the
+			// length with the length minus the else entry, or a value computed behind a test of the marker)
+			markerBound := func(idx ssa.Value) (bool, bool) { // (is a bounded loop counter, bound depends on the marker)
+				ph, ok := idx.(*ssa.Phi)
+				if !ok || ph.Referrers() == nil {
+					return false, false
+				}
+				for _, r := range *ph.Referrers() {
+					bo, ok := r.(*ssa.BinOp)
+					if !ok || (bo.Op != token.LSS && bo.Op != token.LEQ && bo.Op != token.GTR && bo.Op != token.GEQ) {
+						continue
+					}
+					bound := bo.Y
+					if bo.Y == ssa.Value(ph) {
+						bound = bo.X
+					}
+					if bo.Referrers() == nil {
+						continue
+					}
+					isLoopTest := false
+					for _, rr := range *bo.Referrers() {
+						if iff, ok := rr.(*ssa.If); ok && iff.Block() == ph.Block() {
+							isLoopTest = true
+						}
+					}
+					if !isLoopTest {
+						continue
+					}
+					dep := false
+					var walk func(v ssa.Value, d int)
+					walk = func(v ssa.Value, d int) {
+						if d > 4 || dep {
+							return
+						}
+						switch x := v.(type) {
+						case *ssa.Phi:
+							// merged behind a branch on the marker?
+							for _, p := range x.Block().Preds {
+								for q := p; q != nil; q = q.Idom() {
+									if iff, ok := q.Instrs[len(q.Instrs)-1].(*ssa.If); ok {
+										if ld, ok := stripNot(condEdge{iff.Cond, true}).cond.(*ssa.UnOp); ok && ld.Op == token.MUL {
+											if fa, ok := ld.X.(*ssa.FieldAddr); ok && boolFieldOfIf(fa) {
+												dep = true
+											}
+										}
+									}
+									if q == x.Block().Idom() {
+										break
+									}
+								}
+							}
+							for _, e := range x.Edges {
+								walk(e, d+1)
+							}
+						case *ssa.BinOp:
+							walk(x.X, d+1)
+							walk(x.Y, d+1)
+						}
+					}
+					walk(bound, 0)
+					return true, dep
+				}
+				return false, false
+			}
 			for _, b := range f.Blocks {
 				for _, ins := range b.Instrs {
 					if call, ok := ins.(*ssa.Call); ok {
@@ -832,6 +897,12 @@ var ruleElseMarker = &Rule{
 							fromExps(call.Call.Args[0]) && fromExps(call.Call.Args[1]) {
 							compares = true
 							site = call.Pos()
+							for _, a := range call.Call.Args {
+								idx := a.(*ssa.UnOp).X.(*ssa.IndexAddr).Index
+								if counted, dep := markerBound(idx); counted && !dep {
+									unbounded = append(unbounded, c.Pos(a.Pos()))
+								}
+							}
 						}
 					}
 					if ld, ok := ins.(*ssa.UnOp); ok && ld.Op == token.MUL {
@@ -846,7 +917,10 @@ var ruleElseMarker = &Rule{
 			}
 			nCons++
 			key := "AST/else:consumer:" + fnKey(f)
-			if reads {
+			if reads && len(unbounded) > 0 {
+				obs = append(obs, Ob{Key: key, Site: unbounded[0], Verdict: VIOLATION,
+					Note: "one index of the pairwise comparison runs over all of IfStat.Exps although the function reads the else marker: the `true` that stands for `else` is compared with the written conditions"})
+			} else if reads {
 				obs = append(obs, Ob{Key: key, Site: c.Pos(site), Verdict: OK, Note: "reads the else marker"})
 			} else {
 				obs = append(obs, Ob{Key: key, Site: c.Pos(site), Verdict: VIOLATION,
